@@ -8,25 +8,57 @@ Open Scope N_scope.
 
 Theorem C12_undecodable_lemma c s e payload tbl x :
   aget str_eqb (binpkt s) e = None ->
-  decode (table_loads tbl) payload = Err x ->
+  decode_any c (table_loads tbl) payload = Err x ->
   step c s (EioMessage e payload tbl) = (s, []).
 Proof.
   intros Hb Hd. unfold step. cbn [step_m]. unfold bindM at 1. unfold getS at 1.
   destruct (existsb (str_eqb e) (live s)); [|reflexivity].
   unfold contain, handle_eio_message. unfold bindM at 1. unfold getS at 1. rewrite Hb.
-  unfold bindM at 1. rewrite Hd. destruct (uses_binary c); reflexivity.
+  unfold bindM at 1. rewrite Hd. reflexivity.
 Qed.
 
-(* the same when the serializer of the configuration is not the default one: the model has no
-   decoder for it and every frame is rejected *)
-Lemma C12_no_decoder c s e payload tbl :
-  aget str_eqb (binpkt s) e = None -> uses_binary c = false ->
+(* the msgpack decoder rejects values of the wrong shape *)
+Lemma decode_msgpack_not_dict (loads : str -> Res pv) payload d :
+  truthy payload = true ->
+  loads (match payload return str with PBytes b | PStr b => b | _ => [] end) = Ok d ->
+  (forall kv, d <> PDict kv) -> decode_msgpack loads payload = Err TypeError.
+Proof.
+  intros Ht Hl Hd. unfold decode_msgpack. rewrite Ht, Hl. cbn [negb bind].
+  destruct d; try reflexivity. exfalso. eapply Hd; eauto.
+Qed.
+Lemma decode_msgpack_missing (loads : str -> Res pv) payload kv :
+  truthy payload = true ->
+  loads (match payload return str with PBytes b | PStr b => b | _ => [] end) = Ok (PDict kv) ->
+  dict_get kv (PStr (s2l "type")) = None \/ dict_get kv (PStr (s2l "nsp")) = None ->
+  decode_msgpack loads payload = Err KeyError.
+Proof.
+  intros Ht Hl Hm. unfold decode_msgpack. rewrite Ht, Hl. cbn [negb bind].
+  destruct (dict_get kv (PStr (s2l "type"))) as [t|]; [|reflexivity].
+  destruct Hm as [Hm|Hm]; [discriminate|]. rewrite Hm. reflexivity.
+Qed.
+Lemma decode_msgpack_loads_err (loads : str -> Res pv) payload x :
+  truthy payload = true ->
+  loads (match payload return str with PBytes b | PStr b => b | _ => [] end) = Err x ->
+  decode_msgpack loads payload = Err x.
+Proof. intros Ht Hl. unfold decode_msgpack. rewrite Ht, Hl. reflexivity. Qed.
+
+Theorem C12_msgpack_mistyped_rejected_lemma c s e payload tbl :
+  uses_binary c = false -> aget str_eqb (binpkt s) e = None -> truthy payload = true ->
+  (match table_loads tbl (match payload return str with PBytes b | PStr b => b | _ => [] end) with
+   | Err _ => True
+   | Ok (PDict kv) => dict_get kv (PStr (s2l "type")) = None \/ dict_get kv (PStr (s2l "nsp")) = None
+   | Ok _ => True
+   end) ->
   step c s (EioMessage e payload tbl) = (s, []).
 Proof.
-  intros Hb Hu. unfold step. cbn [step_m]. unfold bindM at 1. unfold getS at 1.
-  destruct (existsb (str_eqb e) (live s)); [|reflexivity].
-  unfold contain, handle_eio_message. unfold bindM at 1. unfold getS at 1. rewrite Hb.
-  unfold bindM at 1. rewrite Hu. reflexivity.
+  intros Hu Hb Ht Hshape.
+  assert (exists x, decode_any c (table_loads tbl) payload = Err x) as [x Hx].
+  { unfold decode_any. rewrite Hu.
+    destruct (table_loads tbl _) as [d|x] eqn:Hl.
+    - destruct d; try (eexists; apply (decode_msgpack_not_dict _ _ _ Ht Hl); discriminate).
+      eexists. eapply decode_msgpack_missing; eauto.
+    - eexists. eapply decode_msgpack_loads_err; eauto. }
+  eapply C12_undecodable_lemma; eauto.
 Qed.
 
 (* ------------------------------------------------------------------------------------ *)
@@ -161,6 +193,20 @@ Proof.
   - apply decode_str_ratts.
   - destruct b as [|c b]; [intros [= <-]; reflexivity|]. destruct (_ && _); discriminate.
 Qed.
+Lemma decode_msgpack_ratts loads payload r : decode_msgpack loads payload = Ok r -> ratts r = [].
+Proof.
+  unfold decode_msgpack. destruct (negb (truthy payload)); [intros [= <-]; reflexivity|].
+  destruct (loads _) as [d|]; [|discriminate]. cbn [bind]. destruct d; try discriminate.
+  destruct (dict_get kv (PStr (s2l "type"))); [|discriminate].
+  destruct (dict_get kv (PStr (s2l "nsp"))) as [nsv|]; [|discriminate].
+  destruct (match nsv with PStr n => Some (Some n) | PNone => Some None | _ => None end); [|discriminate].
+  destruct (match dict_get kv (PStr (s2l "id")) with
+            | None | Some PNone => Some None | Some (PInt i) => Some (Some i) | Some _ => None end); [|discriminate].
+  intros [= <-]. reflexivity.
+Qed.
+Lemma decode_any_ratts c loads payload r : decode_any c loads payload = Ok r -> ratts r = [].
+Proof. unfold decode_any. destruct (uses_binary c); [apply decode_ratts|apply decode_msgpack_ratts]. Qed.
+
 (* ------------------------------------------------------------------------------------ *)
 (** * Handlers, generically: what is preserved and which effects can occur *)
 
@@ -226,7 +272,7 @@ Section HandlersGen.
     (forall a, derived ev ns args a -> CallOk a /\ (is_disconnect ev = true -> CallOk (removelast a))) ->
     pres J E (trigger_event c ev ns args).
   Proof.
-    intros Hd. unfold trigger_event. destruct (is_unhashable ev); [apply pres_raise|].
+    intros Hd. unfold trigger_event. destruct (is_unhashable ev && _); [apply pres_raise|].
     destruct (get_event_handler c ev ns args) as [[h args']|] eqn:Hg.
     - apply get_event_handler_derived in Hg. destruct (Hd _ Hg).
       apply pres_bind; [apply call_with_retry_gen; auto|]. intros v. apply pres_ret.
@@ -1007,7 +1053,7 @@ End Local.
 Definition benign_event_name (c : cfg) (s : srv) (e : str) (payload : pv) (loads : str -> Res pv) : Prop :=
   match aget str_eqb (binpkt s) e with
   | Some r => forall r', add_attachment r payload = Ok (r', true) -> ev_not_disconnect (pdata (rp r'))
-  | None => forall r, decode loads payload = Ok r -> ev_not_disconnect (pdata (rp r))
+  | None => forall r, decode_any c loads payload = Ok r -> ev_not_disconnect (pdata (rp r))
   end.
 
 Lemma osame_binpkt e s bp :
@@ -1040,8 +1086,7 @@ Proof.
       * unfold set_binpkt. apply hp_modify. apply hp_raise. split; [|constructor]. apply osame_binpkt.
         apply (filter_aset str_eqb _ _ _ _ r Hbp). intros k' Hk. split; apply Hself; auto.
   - apply hp_bind. apply hp_lift.
-    destruct (uses_binary c); [|split; [apply osame_refl|constructor]].
-    destruct (decode loads payload) as [r|x] eqn:Hdec; [|split; [apply osame_refl|constructor]].
+    destruct (decode_any c loads payload) as [r|x] eqn:Hdec; [|split; [apply osame_refl|constructor]].
     destruct (type_is (rp r) CONNECT); [apply handle_connect_local; auto|].
     destruct (type_is (rp r) DISCONNECT); [apply handle_disconnect_local; auto|].
     destruct (type_is (rp r) EVENT).
@@ -1101,7 +1146,7 @@ Proof.
     split; [auto|]. cbn [snd]. apply N.eqb_refl.
   - apply osame_others_unchanged. exact Hos.
   - unfold classify. destruct (aget str_eqb (binpkt s) e) eqn:Hbp; [reflexivity|].
-    destruct (decode (table_loads tbl) payload) as [r|x] eqn:Hd; [reflexivity|].
+    destruct (decode_any c (table_loads tbl) payload) as [r|x] eqn:Hd; [reflexivity|].
     unfold obs. rewrite (C12_undecodable_lemma c s e payload tbl x Hbp Hd). reflexivity.
 Qed.
 
@@ -1270,14 +1315,13 @@ Proof.
       * unfold set_binpkt. apply hp_modify. apply hp_raise. cbn [binpkt]. apply Haset. cbn [ratts].
         rewrite app_length. cbn. lia.
   - apply hp_bind. apply hp_lift.
-    destruct (uses_binary c); [|exact Hrefl].
-    destruct (decode (table_loads tbl) payload) as [r|x] eqn:Hdec; [|exact Hrefl].
+    destruct (decode_any c (table_loads tbl) payload) as [r|x] eqn:Hdec; [|exact Hrefl].
     destruct (type_is (rp r) CONNECT); [apply Hkeep; auto; apply bin_handle_connect|].
     destruct (type_is (rp r) DISCONNECT); [apply Hkeep; auto; apply bin_handle_disconnect|].
     destruct (type_is (rp r) EVENT); [apply Hkeep; auto; apply bin_handle_event|].
     destruct (type_is (rp r) ACK); [apply Hkeep; auto; apply bin_handle_ack|].
     destruct (type_is (rp r) BINARY_EVENT || type_is (rp r) BINARY_ACK).
-    + unfold set_binpkt. apply hp_modify. cbn [binpkt]. apply Haset. eapply decode_ratts; eauto.
+    + unfold set_binpkt. apply hp_modify. cbn [binpkt]. apply Haset. eapply decode_any_ratts; eauto.
     + apply hp_raise. exact Hrefl.
 Qed.
 (* ------------------------------------------------------------------------------------ *)
@@ -1391,4 +1435,16 @@ Example x_bounded :
   binpkt_bounded x_e1 (binpkt x_state) (binpkt s').
 Proof.
   split; [vm_compute; reflexivity|]. apply C12_bounded_state_lemma. apply x_state_Inv.
+Qed.
+
+(* msgpack serializer: a frame that unpacks to a list, and one whose dict lacks 'nsp' *)
+Definition x_cfg_mp : cfg :=
+  mkCfg (handlers x_cfg) [] (behav x_cfg) None false false.
+Example x_msgpack_rejected :
+  step x_cfg_mp x_state (EioMessage x_e1 (PBytes [147; 1; 2; 3]) [([147; 1; 2; 3], Ok (PList [PInt 1; PInt 2; PInt 3]))])
+    = (x_state, []) /\
+  step x_cfg_mp x_state (EioMessage x_e1 (PBytes [129]) [([129], Ok (PDict [(PStr (s2l "type"), PInt 2)]))])
+    = (x_state, []).
+Proof.
+  split; apply C12_msgpack_mistyped_rejected_lemma; try reflexivity; vm_compute; auto.
 Qed.
